@@ -152,7 +152,10 @@ class SeqOutcome:
 def make_tasks(exe, world_name, scripts_file, n_scripts, trace_module, workdir, tag, interp_args=(), max_rej=1,
                reset_event='"e":"rs"', trace_env=None, chunk_scripts=1500):
     """Split one (world, script set) into chunk tasks; each task replays its scripts on the real code and validates the trace."""
-    k = max(1, min(NCPU, (n_scripts + chunk_scripts - 1) // chunk_scripts))
+    # one chunk per core for small sets, but never more than 30 000 scripts in one trace file (the validator reads a whole trace into memory:
+    # the ten-million-script covers of the thorough tier ran out of heap with sixteen chunks)
+    size = min(30000, max(chunk_scripts, (n_scripts + NCPU - 1) // NCPU))
+    k = max(1, (n_scripts + size - 1) // size)
     parts = split_lines(scripts_file, k, workdir, tag)
     tasks = []
     for i, part in enumerate(parts):
